@@ -110,3 +110,28 @@ Definition run_return (c : string) (f : file) : option (file * bool) :=
   else if String.eqb c "ErrNonNil" then Some (f, true)
   else if String.eqb c "RecoverBlockUnreachable" then None
   else Some (f, false).   (* unclassified: could return a nil error without having run IsADV *)
+
+(* ---------------------------------------------------------------- mixed histories on the store
+   (what the correspondence check runs): validate requests and library operations applied to a
+   stored file through the pointer the store shares *)
+Inductive srq :=
+| SValidate (id : bytes) (v : vflags)   (* GET/POST /files/{id}/validate *)
+| SLib (id : bytes) (o : op).           (* a library operation on the stored *File *)
+
+Fixpoint store_apply (id : bytes) (o : xop) (st : store) : store :=
+  match st with
+  | [] => []
+  | (k, f) :: r => if bytes_eqb id k then (k, xstep f o) :: r else (k, f) :: store_apply id o r
+  end.
+
+Definition serve_x (st : store) (rq : srq) : store :=
+  match rq with
+  | SValidate id v => store_apply id (XServerValidate v) st
+  | SLib id o => store_apply id (XLib o) st
+  end.
+
+Fixpoint run_srqs (st : store) (rqs : list srq) : list store :=
+  match rqs with
+  | [] => []
+  | rq :: t => let st' := serve_x st rq in st' :: run_srqs st' t
+  end.
